@@ -220,6 +220,18 @@ impl Driver<'_> {
                     Err(e) => (classify(&e, src == "short").into(), None),
                 }
             }
+            "swrite" => {
+                // helpers::StreamWriter: io::Write adaptor over one file of the archive
+                let id = lab["id"].as_u64().unwrap();
+                let len = lab["len"].as_u64().unwrap() as usize;
+                let from = *self.fed.get(&id).unwrap_or(&0);
+                let data = file_bytes(&self.par, id, from, len);
+                let mut sw = mla::helpers::StreamWriter::new(&mut self.w, id);
+                match sw.write_all(&data).and_then(|()| sw.flush()) {
+                    Ok(()) => ("Ok".into(), None),
+                    Err(_) => ("EIo".into(), None),
+                }
+            }
             "end" => {
                 let id = lab["id"].as_u64().unwrap();
                 match self.w.end_file(id) {
@@ -253,7 +265,7 @@ impl Driver<'_> {
     /// Account for the bytes of an effective append/add (called when the MODEL says the call had effect)
     pub fn account(&mut self, lab: &Value) {
         match lab["op"].as_str().unwrap() {
-            "append" => {
+            "append" | "swrite" => {
                 let id = lab["id"].as_u64().unwrap();
                 let len = lab["len"].as_u64().unwrap() as usize;
                 let got = if lab["src"].as_str() == Some("short") { len - 1 } else { len };
